@@ -1,42 +1,10 @@
 package socket
 
-import (
-	"io"
-)
+import "io"
+
 
 func init() {
 	vxRegister("VX_C05_RawRoundTrip", VX_C05_RawRoundTrip)
-}
-
-// vxBuf is an in-memory io.ReadWriter; Write appends one record per call so
-// that "one Write per frame" is observable; Read delivers at most chunk bytes.
-type vxBuf struct {
-	data   []byte
-	off    int
-	writes int
-	chunk  int // 0 = as much as fits
-}
-
-func (b *vxBuf) Write(p []byte) (int, error) {
-	b.writes++
-	b.data = append(b.data, p...)
-	return len(p), nil
-}
-
-func (b *vxBuf) Read(p []byte) (int, error) {
-	if b.off >= len(b.data) {
-		return 0, io.EOF
-	}
-	n := len(p)
-	if b.chunk > 0 && n > b.chunk {
-		n = b.chunk
-	}
-	if n > len(b.data)-b.off {
-		n = len(b.data) - b.off
-	}
-	copy(p, b.data[b.off:b.off+n])
-	b.off += n
-	return n, nil
 }
 
 // VX_C05_RawRoundTrip: Unpack(Pack(m)) preserves every field (raw protocol).
@@ -125,4 +93,127 @@ func VX_C05_RawRoundTrip(args []int) {
 		vxAssert(got.StatusOK(), "no status => OK")
 	}
 	vxAssert(w.off == len(w.data), "Unpack consumed exactly the frame")
+}
+
+func init() {
+	vxRegister("VX_C05_RawStream", VX_C05_RawStream)
+	vxRegister("VX_C05_RawSizeIndependent", VX_C05_RawSizeIndependent)
+}
+
+// vxPipeOf maps a small code to a transfer pipe: digits of code in base 4
+// (1='A', 2='B', 3='C'), least significant first.
+func vxPipeOf(code int) []byte {
+	var ids []byte
+	for code > 0 {
+		d := code % 4
+		code /= 4
+		if d > 0 {
+			ids = append(ids, byte('A'+d-1))
+		}
+	}
+	return ids
+}
+
+// VX_C05_RawStream: two back-to-back frames delivered with short reads at
+// solver-chosen stream offsets decode to the same two messages and consume
+// exactly the two frames. args: pipeCode1, pipeCode2, nBody, nCuts, bufSize
+func VX_C05_RawStream(args []int) {
+	p1, p2, nBody, nCuts, bufSize := vxPipeOf(args[0]), vxPipeOf(args[1]), args[2], args[3], args[4]
+	mk := func(tag string, seq int32, pipe []byte) (Message, []byte) {
+		m := NewMessage()
+		m.SetSeq(seq)
+		m.SetMtype(vxByte(tag + "mtype"))
+		m.SetServiceMethod("/a/" + tag)
+		m.SetBodyCodec('s')
+		body := vxBytes(tag+"body", nBody)
+		m.SetBody(body)
+		m.Meta().Add("k"+tag, "v")
+		vxAssume(m.XferPipe().Append(pipe...) == nil)
+		return m, body
+	}
+	m1, b1 := mk("x", 7, p1)
+	m2, b2 := mk("y", -9, p2)
+	w := &vxBuf{}
+	pw := RawProtoFunc(w)
+	vxAssume(pw.Pack(m1) == nil)
+	l1 := len(w.data)
+	vxAssume(pw.Pack(m2) == nil)
+	total := len(w.data)
+	vxAssert(w.writes == 2, "one Write per frame")
+	for k := 0; k < nCuts; k++ {
+		w.cuts = append(w.cuts, 1+vxChoose("cut", total-1))
+	}
+	var rw IOWithReadBuffer = w
+	if bufSize > 0 {
+		rw = vxBuffered(w, bufSize)
+	}
+	pr := RawProtoFunc(rw)
+	check := func(want Message, wantBody []byte, what string) {
+		got := NewMessage(vxBytesBody())
+		err := pr.Unpack(got)
+		vxAssert(err == nil, what+": Unpack succeeds under chunked delivery")
+		vxAssert(got.Seq() == want.Seq() && got.Mtype() == want.Mtype(), what+": seq/mtype")
+		vxAssert(got.ServiceMethod() == want.ServiceMethod(), what+": service method")
+		vxAssert(got.Size() == want.Size(), what+": size depends on the message alone")
+		gi, wi := got.XferPipe().IDs(), want.XferPipe().IDs()
+		vxAssert(len(gi) == len(wi), what+": transfer pipe length")
+		for k := range wi {
+			if k < len(gi) {
+				vxAssert(gi[k] == wi[k], what+": transfer pipe ids")
+			}
+		}
+		gb := *(got.Body().(*[]byte))
+		vxAssert(len(gb) == len(wantBody), what+": body length")
+		for k := range wantBody {
+			if k < len(gb) {
+				vxAssert(gb[k] == wantBody[k], what+": body bytes")
+			}
+		}
+		vxAssert(got.Meta().Len() == 1, what+": meta count")
+	}
+	check(m1, b1, "frame1")
+	if bufSize == 0 {
+		vxAssert(w.off == l1, "frame1 consumed exactly")
+	}
+	check(m2, b2, "frame2")
+	vxCover("c05.stream.two-frames")
+	// end of stream: next Unpack reports EOF, nothing left over
+	got := NewMessage(vxBytesBody())
+	err := pr.Unpack(got)
+	vxAssert(err == io.EOF, "EOF exactly after the two frames")
+	vxAssert(w.off == total, "stream consumed exactly")
+}
+
+// VX_C05_RawSizeIndependent: the size reported for a frame does not depend on
+// what the protocol instance handled before. args: nBodyPrev, nBody
+func VX_C05_RawSizeIndependent(args []int) {
+	mk := func(tag string, n int) Message {
+		m := NewMessage()
+		m.SetSeq(vxInt32(tag + "seq"))
+		vxAssume(m.Seq() >= 0 && m.Seq() < 36)
+		m.SetMtype(vxByte(tag + "mtype"))
+		m.SetServiceMethod("/m")
+		m.SetBody(vxBytes(tag+"body", n))
+		return m
+	}
+	prev := mk("p", args[0])
+	m := mk("m", args[1])
+	// fresh instance
+	w0 := &vxBuf{}
+	vxAssume(RawProtoFunc(w0).Pack(m) == nil)
+	size0 := m.Size()
+	g0 := NewMessage(vxBytesBody())
+	vxAssume(RawProtoFunc(w0).Unpack(g0) == nil)
+	// instance with history
+	w1 := &vxBuf{}
+	p1 := RawProtoFunc(w1)
+	vxAssume(p1.Pack(prev) == nil)
+	gp := NewMessage(vxBytesBody())
+	vxAssume(p1.Unpack(gp) == nil)
+	vxAssume(p1.Pack(m) == nil)
+	vxAssert(m.Size() == size0, "Pack size independent of earlier traffic")
+	g1 := NewMessage(vxBytesBody())
+	vxAssert(p1.Unpack(g1) == nil, "unpack after history")
+	vxAssert(g1.Size() == g0.Size() && g1.Size() == size0, "Unpack size independent of earlier traffic")
+	vxCover("c05.size.independent")
 }
